@@ -1,4 +1,5 @@
 import Fzf.Lemmas.Rank
+import Fzf.Lemmas.Merger
 import Fzf.Generated.Consts
 import Fzf.Generated.GoFuncs
 /-
@@ -66,45 +67,11 @@ theorem C04_packed_lt_iff_lex (a b : R) (ha : WF a) (hb : WF b) :
     `less a b`, `less b a` holds (so the sorted permutation is unique and the instability of
     sort.Sort is irrelevant), for --tac and not. -/
 theorem C04_less_total_asymm (a b : R) (tac : Bool) (hidx : a.index ≠ b.index) :
-    compareRanks64 a b tac = !compareRanks64 b a tac := by
-  unfold compareRanks64
-  by_cases h1 : packed a < packed b
-  · have : ¬ packed b < packed a := by omega
-    have : packed b > packed a := h1
-    simp [h1, *]
-  · by_cases h2 : packed a > packed b
-    · have : packed b < packed a := h2
-      simp [h1, h2, this]
-    · have he : packed a = packed b := by omega
-      simp only [he, Nat.lt_irrefl, gt_iff_lt, if_false]
-      by_cases hle : a.index ≤ b.index
-      · have : ¬ b.index ≤ a.index := by omega
-        cases tac <;> simp [hle, this]
-      · have : b.index ≤ a.index := by omega
-        cases tac <;> simp [hle, this]
+    compareRanks64 a b tac = !compareRanks64 b a tac := cmp_total_asymm a b tac hidx
 
 theorem C04_less_trans (a b c : R) (tac : Bool)
-    (hab : compareRanks64 a b tac = true) (hbc : compareRanks64 b c tac = true) : compareRanks64 a c tac = true := by
-  unfold compareRanks64 at *
-  by_cases h1 : packed a < packed b
-  · by_cases h2 : packed b < packed c
-    · rw [if_pos (by omega)]
-    · by_cases h2' : packed b > packed c
-      · simp [h2, h2'] at hbc
-      · have : packed b = packed c := by omega
-        rw [if_pos (by omega)]
-  · by_cases h1' : packed a > packed b
-    · simp [h1, h1'] at hab
-    · have e1 : packed a = packed b := by omega
-      simp only [e1, Nat.lt_irrefl, gt_iff_lt, if_false] at hab
-      by_cases h2 : packed b < packed c
-      · rw [if_pos (by omega)]
-      · by_cases h2' : packed b > packed c
-        · simp [h2, h2'] at hbc
-        · have e2 : packed b = packed c := by omega
-          simp only [e2, Nat.lt_irrefl, gt_iff_lt, if_false] at hbc
-          simp only [e1, e2, Nat.lt_irrefl, gt_iff_lt, if_false]
-          cases tac <;> simp at * <;> omega
+    (hab : compareRanks64 a b tac = true) (hbc : compareRanks64 b c tac = true) : compareRanks64 a c tac = true :=
+  cmp_trans a b c tac hab hbc
 
 /-- The worker partitions are consecutive slices whose concatenation is the snapshot: every
     chunk is scanned by exactly one worker, for every chunk count and every partition count. -/
@@ -122,6 +89,33 @@ theorem C04_slices_count (partitions : Nat) (chunks : List α) :
   unfold sliceChunks
   simp only
   split <;> simp [sliceGo_length] <;> omega
+
+/-- **Merging the workers' lists is sorting.** If every worker's list is in rank order (which
+    sort.Sort guarantees) and the results belong to distinct items, then after as many rounds of
+    `mergedGet` as there are results — for any number of lists, any lengths, --tac or not — the
+    merged list is in rank order and is a permutation of all results: each matched line once, in the
+    order of the sort key. -/
+theorem C04_merge_is_sort (lists : List (List R)) (tac : Bool)
+    (hs : ∀ l ∈ lists, l.Pairwise fun a b => compareRanks64 a b tac = true)
+    (hd : DistinctIdx lists.flatten) :
+    ∃ m, mergeN lists.flatten.length (Merger.new lists true tac) = some m ∧
+      (m.merged.Pairwise fun a b => compareRanks64 a b tac = true) ∧ m.merged.Perm lists.flatten :=
+  merge_sorted_perm lists tac hs hd
+
+/-- **The merge is lazy without being observable**: after `k` rounds exactly the first `k` results
+    of the complete merge are there, so `Get(i)` is the `i`-th result of the sorted list whatever
+    was requested before (scrolling, jumping to the end, searching an index). -/
+theorem C04_lazy_any_order (lists : List (List R)) (tac : Bool)
+    (hs : ∀ l ∈ lists, l.Pairwise fun a b => compareRanks64 a b tac = true)
+    (hd : DistinctIdx lists.flatten) (k : Nat) (hk : k ≤ lists.flatten.length) :
+    ∃ mk mall, mergeN k (Merger.new lists true tac) = some mk ∧
+      mergeN lists.flatten.length (Merger.new lists true tac) = some mall ∧
+      mk.merged = mall.merged.take k :=
+  merge_lazy_prefix lists tac hs hd k hk
+
+/-- Each round appends exactly one result and never touches the ones already merged. -/
+theorem C04_round_appends (m m' : Merger) (h : m.mergeStep = some m') : ∃ r, m'.merged = m.merged ++ [r] :=
+  mergeStep_append m m' h
 
 /-- **Pass-through results (empty query, `--no-sort`) are the loaded items, each once, in input
     order**: for every chunk layout a snapshot can have — the first chunk partial after `--tail`
@@ -144,6 +138,13 @@ theorem C04_asUint16_is_source (v : Int) :
   unfold Generated.Go.AsUint16 asUint16
   by_cases h1 : v > 65535 <;> by_cases h2 : v < 0 <;> simp [h1, h2] <;> omega
 
+-- non-vacuity: two sorted lists of distinct items
+example : (∀ l ∈ [[(⟨[0, 0, 1, 65499], 1⟩ : R), ⟨[0, 0, 4, 65499], 2⟩], [⟨[0, 0, 2, 65499], 3⟩]],
+    l.Pairwise fun a b => compareRanks64 a b false = true) ∧
+    DistinctIdx ([[(⟨[0, 0, 1, 65499], 1⟩ : R), ⟨[0, 0, 4, 65499], 2⟩], [⟨[0, 0, 2, 65499], 3⟩]].flatten) := by
+  refine ⟨by decide, by unfold DistinctIdx; decide⟩
+example : ((mergeN 3 (Merger.new [[(⟨[0, 0, 1, 65499], 1⟩ : R), ⟨[0, 0, 4, 65499], 2⟩], [⟨[0, 0, 2, 65499], 3⟩]] true false)).map
+    (·.merged.map (·.index))) = some [1, 3, 2] := by decide
 example : Layout 3 [[7, 8], [9, 10, 11], [12, 13, 14], [15]] := by simp [Layout, Uniform]
 example : passGet 3 [[7, 8], [9, 10, 11], [12, 13, 14], [15]] false 5 = some 12 := by decide
 example : WF ⟨[65535, 0, 7, 65499], 3⟩ := by simp [WF]
